@@ -325,8 +325,8 @@ Print Assumptions C06_route_quaternion.
 (* ================================================================ 6. the unit-dual-quaternion route
    DualQuaternion.__mul__ (point branch) computes  left * Pure(v) * DualQuaternion(left.real.conj(), -left.dual.conj())
    -- the conjugate that also negates the dual unit -- and returns the vector of the dual part.
-   (Before fix 0a28e8d it used left.conj() and the translation cancelled: the statement below was then carried as a
-   _refuted/_partial pair.)  tr_UDQ_v is traced under |q| = 1: products of UnitQuaternions are re-normalised, the sqrt
+   (Before fix 0a28e8d it used left.conj() and the translation cancelled: the statement below was then false of the traced code and carried as a
+   counterexample plus guarded version.)  tr_UDQ_v is traced under |q| = 1: products of UnitQuaternions are re-normalised, the sqrt
    terms are rewritten to 1 under the hypothesis. *)
 Ltac unit_sqrt H :=
   repeat match goal with
@@ -366,6 +366,110 @@ Print Assumptions C06_route_dual_quaternion.
 (* the translation really is applied (guards against the statement holding only for t = 0) *)
 Example C06_UDQ_point_translates : tr_UDQ_v Rops (1, 0, 0, 0) (tr_UDQ_dual Rops (1, 0, 0, 0) (1, 2, 3)) (0, 0, 0) = (1, 2, 3).
 Proof. rewrite C06_UDQ_point by (gen_unfold; lra). gen_unfold. tuple_eq ltac:(lra). Qed.
+
+(* ================================================================ 7. PRODUCTS on the quaternion routes act as the composition
+   The product of two UnitQuaternions / two UnitDualQuaternions is traced twice, once on the path where the scalar part of
+   q1 q2 is negative and once where it is positive (the two sheets of the double cover; the unchanged code does not
+   branch on it, a canonicalising change would).  The traced products re-normalise the real part (sqrt terms = 1). *)
+Ltac unit_sqrt2 :=
+  repeat match goal with
+         | |- context [sqrt ?x] =>
+           let E := fresh "E" in assert (E : x = 1) by (first [lra | nsatz]); rewrite E; clear E; rewrite sqrt_1
+         end.
+Definition dq_real (a : V8 R) : V4 R := let '(a0,a1,a2,a3,_,_,_,_) := a in (a0,a1,a2,a3).
+Definition dq_dual (a : V8 R) : V4 R := let '(_,_,_,_,a4,a5,a6,a7) := a in (a4,a5,a6,a7).
+Definition dq_make (r d : V4 R) : V8 R := let '(a0,a1,a2,a3) := r in let '(a4,a5,a6,a7) := d in (a0,a1,a2,a3,a4,a5,a6,a7).
+
+Theorem C06_UQ_product : forall q1 q2 : V4 R, qnormsq Rops q1 = 1 -> qnormsq Rops q2 = 1 ->
+  tr_UQ_mul_neg Rops q1 q2 = qmul Rops q1 q2 /\ tr_UQ_mul_pos Rops q1 q2 = qmul Rops q1 q2.
+Proof.
+  intros q1 q2 H1 H2. destruct_tuples. gen_unfold. split; unit_sqrt2; tuple_eq ltac:(field).
+Qed.
+Print Assumptions C06_UQ_product.
+
+Lemma UQ_v_rot : forall (q : V4 R) (v : V3 R), qnormsq Rops q = 1 -> tr_UQ_v Rops q v = mv33 Rops (q2r_ref Rops q) v.
+Proof.
+  intros q v H. destruct (C06_UQ_point q v) as [-> _]. rewrite (C06_qvmul_is_rotation q v H).
+  destruct (C06_q2r_is_rotation q H) as [-> _]. reflexivity.
+Qed.
+Lemma mv33_mmul : forall (A B : M33 R) (v : V3 R), mv33 Rops (mmul33 Rops A B) v = mv33 Rops A (mv33 Rops B v).
+Proof. lin_ring. Qed.
+Lemma qmul_unit : forall p q : V4 R, qnormsq Rops p = 1 -> qnormsq Rops q = 1 -> qnormsq Rops (qmul Rops p q) = 1.
+Proof. intros p q Hp Hq. rewrite qmul_norm, Hp, Hq. ring. Qed.
+
+Theorem C06_UQ_product_acts_as_composition : forall (q1 q2 : V4 R) (v : V3 R), qnormsq Rops q1 = 1 -> qnormsq Rops q2 = 1 ->
+  tr_UQ_v Rops (tr_UQ_mul_neg Rops q1 q2) v = tr_UQ_v Rops q1 (tr_UQ_v Rops q2 v) /\
+  tr_UQ_v Rops (tr_UQ_mul_pos Rops q1 q2) v = tr_UQ_v Rops q1 (tr_UQ_v Rops q2 v).
+Proof.
+  intros q1 q2 v H1 H2. destruct (C06_UQ_product q1 q2 H1 H2) as [-> ->].
+  rewrite (UQ_v_rot _ v (qmul_unit _ _ H1 H2)), (UQ_v_rot q2 v H2), (UQ_v_rot q1 _ H1), (q2r_hom _ _ H1 H2), mv33_mmul.
+  split; reflexivity.
+Qed.
+Print Assumptions C06_UQ_product_acts_as_composition.
+
+Theorem C06_UDQ_product : forall q1 d1 q2 d2 : V4 R, qnormsq Rops q1 = 1 -> qnormsq Rops q2 = 1 ->
+  tr_UDQ_mul_neg Rops q1 d1 q2 d2 = dq_make (qmul Rops q1 q2) (vadd4 Rops (qmul Rops q1 d2) (qmul Rops d1 q2)) /\
+  tr_UDQ_mul_pos Rops q1 d1 q2 d2 = dq_make (qmul Rops q1 q2) (vadd4 Rops (qmul Rops q1 d2) (qmul Rops d1 q2)).
+Proof.
+  intros q1 d1 q2 d2 H1 H2. destruct_tuples. unfold dq_make. gen_unfold. split; unit_sqrt2; tuple_eq ltac:(field).
+Qed.
+Print Assumptions C06_UDQ_product.
+
+(* the dual part of the product of the unit dual quaternions of (q1,t1) and (q2,t2) is the dual part of (q1 q2, R1 t2 + t1) *)
+Lemma UDQ_dual_compose : forall (q1 q2 : V4 R) (t1 t2 : V3 R), qnormsq Rops q1 = 1 ->
+  vadd4 Rops (qmul Rops q1 (tr_UDQ_dual Rops q2 t2)) (qmul Rops (tr_UDQ_dual Rops q1 t1) q2)
+  = tr_UDQ_dual Rops (qmul Rops q1 q2) (vadd3 Rops (mv33 Rops (q2r_ref Rops q1) t2) t1).
+Proof.
+  intros q1 q2 t1 t2 H. destruct_tuples. gen_unfold.
+  tuple_eq ltac:(apply (Rmult_eq_reg_l 2); [|lra]; field_simplify; simpl; nsatz).
+Qed.
+
+Theorem C06_UDQ_product_acts_as_composition : forall (q1 q2 : V4 R) (t1 t2 v : V3 R), qnormsq Rops q1 = 1 -> qnormsq Rops q2 = 1 ->
+  let d1 := tr_UDQ_dual Rops q1 t1 in let d2 := tr_UDQ_dual Rops q2 t2 in
+  let Pn := tr_UDQ_mul_neg Rops q1 d1 q2 d2 in let Pp := tr_UDQ_mul_pos Rops q1 d1 q2 d2 in
+  tr_UDQ_v Rops (dq_real Pn) (dq_dual Pn) v = tr_UDQ_v Rops q1 d1 (tr_UDQ_v Rops q2 d2 v) /\
+  tr_UDQ_v Rops (dq_real Pp) (dq_dual Pp) v = tr_UDQ_v Rops q1 d1 (tr_UDQ_v Rops q2 d2 v) /\
+  (* ... and both are R1 (R2 v + t2) + t1, the composed rigid motion *)
+  tr_UDQ_v Rops q1 d1 (tr_UDQ_v Rops q2 d2 v)
+    = vadd3 Rops (mv33 Rops (q2r_ref Rops q1) (vadd3 Rops (mv33 Rops (q2r_ref Rops q2) v) t2)) t1.
+Proof.
+  intros q1 q2 t1 t2 v H1 H2 d1 d2 Pn Pp. subst Pn Pp.
+  destruct (C06_UDQ_product q1 d1 q2 d2 H1 H2) as [-> ->]. subst d1 d2.
+  assert (Er : forall r d, dq_real (dq_make r d) = r /\ dq_dual (dq_make r d) = d)
+    by (intros r d; destruct_tuples; split; reflexivity).
+  destruct (Er (qmul Rops q1 q2) (vadd4 Rops (qmul Rops q1 (tr_UDQ_dual Rops q2 t2)) (qmul Rops (tr_UDQ_dual Rops q1 t1) q2))) as [-> ->].
+  rewrite (UDQ_dual_compose q1 q2 t1 t2 H1).
+  rewrite (C06_UDQ_point _ _ v (qmul_unit _ _ H1 H2)), (C06_UDQ_point q2 t2 v H2), (C06_UDQ_point q1 t1 _ H1).
+  destruct (C06_q2r_is_rotation _ (qmul_unit _ _ H1 H2)) as [-> _].
+  destruct (C06_q2r_is_rotation q1 H1) as [-> _]. destruct (C06_q2r_is_rotation q2 H2) as [-> _].
+  rewrite (q2r_hom _ _ H1 H2).
+  assert (K : vadd3 Rops (mv33 Rops (mmul33 Rops (q2r_ref Rops q1) (q2r_ref Rops q2)) v) (vadd3 Rops (mv33 Rops (q2r_ref Rops q1) t2) t1)
+              = vadd3 Rops (mv33 Rops (q2r_ref Rops q1) (vadd3 Rops (mv33 Rops (q2r_ref Rops q2) v) t2)) t1).
+  { generalize (q2r_ref Rops q1) (q2r_ref Rops q2). intros A B. destruct_tuples. gen_unfold. tuple_eq ltac:(ring). }
+  rewrite K. repeat split; reflexivity.
+Qed.
+Print Assumptions C06_UDQ_product_acts_as_composition.
+
+(* double cover: (q, d) and (-q, -d) are the same rigid motion, q and -q the same rotation *)
+Theorem C06_double_cover : forall (q d : V4 R) (v : V3 R), qnormsq Rops q = 1 ->
+  tr_UQ_v Rops (vneg4 Rops q) v = tr_UQ_v Rops q v /\
+  tr_UDQ_v Rops (vneg4 Rops q) (vneg4 Rops d) v = tr_UDQ_v Rops q d v.
+Proof.
+  intros q d v H. split; [clear H; gen_ring|]. destruct_tuples. gen_unfold.
+  unit_sqrt2. tuple_eq ltac:(field).
+Qed.
+Print Assumptions C06_double_cover.
+
+(* ... whereas negating the real part alone turns t into -t: NOT the same motion (what canonicalising the rotational part
+   alone would do) *)
+Example C06_negating_real_part_alone_flips_t :
+  tr_UDQ_v Rops (vneg4 Rops (1, 0, 0, 0)) (tr_UDQ_dual Rops (1, 0, 0, 0) (1, 2, 3)) (0, 0, 0) = (-1, -2, -3) /\
+  tr_UDQ_v Rops (1, 0, 0, 0) (tr_UDQ_dual Rops (1, 0, 0, 0) (1, 2, 3)) (0, 0, 0) = (1, 2, 3).
+Proof.
+  gen_unfold. split.
+  - repeat match goal with |- context [sqrt ?x] => replace x with 1 by lra; rewrite sqrt_1 end. tuple_eq ltac:(lra).
+  - repeat match goal with |- context [sqrt ?x] => replace x with 1 by lra; rewrite sqrt_1 end. tuple_eq ltac:(lra).
+Qed.
 
 (* ================================================================ non-vacuity of the hypotheses *)
 Example C06_nonvacuous_SE3 : SE3 ((3/5, -(4/5), 0, 7), (4/5, 3/5, 0, -2), (0, 0, 1, 1/3), (0, 0, 0, 1)) /\
